@@ -214,7 +214,7 @@ class IVFCHashTree:
 
         if verify:
             # determine which cache to use depending on if the data is being deep verified
-            cache = (self._deep_valid_results_cache if deep_verify else self._valid_results_cache)[0]
+            cache = (self._deep_valid_results_cache if deep_verify else self._valid_results_cache)[level_index]
 
             with self._rlock:
                 if block in cache:
